@@ -13,7 +13,7 @@ from . import c10
 
 ID = 'C18'
 LEVEL = 'model_checking'
-RULE = ('(f) capacity: in a fresh process a filler with exactly n distinct variable names (n from 1 below to 1 above each of 11 typical capacities 64..8192 [quick ..4096], sharing none / the first / the first two .. of the target\'s names), then each of 4 targets: the same text as in a fresh process; (e) stack headroom: every corpus program compiled under every recursion limit from 3 below to 45 above the least limit under which it compiles at all (found by bisection): each compilation raises or returns exactly the ordinary output. corpus: every clause shape with 0..3 variables that occur only inside head structures x 0..4 body-only variables '
+RULE = ('(g) every rejected program of the corpus offered three times while the caller keeps the exception objects: three rejections of the same kind; (f) capacity: in a fresh process a filler with exactly n distinct variable names (n from 1 below to 1 above each of 11 typical capacities 64..8192 [quick ..4096], sharing none / the first / the first two .. of the target\'s names), then each of 4 targets: the same text as in a fresh process; (e) stack headroom: every corpus program compiled under every recursion limit from 3 below to 45 above the least limit under which it compiles at all (found by bisection): each compilation raises or returns exactly the ordinary output. corpus: every clause shape with 0..3 variables that occur only inside head structures x 0..4 body-only variables '
         'x 0..2 anonymous variables, heads in which 2..5 variables occur twice, the body trees with <= N operators in the C05 context, the repository\'s sample files, [for (b) and (d) also the body trees with N+1 operators over {! o fail}], and 11 programs that are rejected at different stages (syntax, leftover input, goal not callable, head name, too large, unsupported term - also in the middle of a clause whose variables have the names other programs use). '
         '(a) environment exploration of set-iteration order: the names set/frozenset are shadowed in the compiler modules by '
         'an order-controlled stand-in; every call is a choice point and EVERY permutation of its elements is explored at '
@@ -588,16 +588,49 @@ def run_capacity(spec):
     return acc
 
 
+# ---- (g) a rejected program is rejected again -------------------------------------------------------------
+# every program of the corpus that the compiler rejects is offered three times in a row while the caller KEEPS the
+# exception objects (and with them the frames of the failed compilations): three rejections of the same kind
+def run_rejected(spec):
+    _, tier = spec
+    acc = Acc()
+    for idx, (name, text) in enumerate(corpus(tier)):
+        kept = []
+        outcomes = []
+        for attempt in range(3):
+            try:
+                out = impl.compile_text(text)
+                outcomes.append(('compiled', digest(out)))
+            except Exception as e:  # noqa: BLE001
+                kept.append(e)
+                outcomes.append(('rejected', type(e).__name__))
+        if outcomes[0][0] != 'rejected':
+            continue
+        acc.n['evaluations'] += 1
+        acc.n['validated'] += 1
+        acc.n['transitions'] += 3
+        acc.n['nontrivial'] += 1
+        if outcomes[1] != outcomes[0] or outcomes[2] != outcomes[0]:
+            acc.violation('rejected-program-accepted-on-a-later-attempt', (7, idx), {'rejected': [name, text]},
+                          'program %s\n%s\noffered three times while the caller keeps the exception objects: %s' % (name, text, outcomes), key='rejected|%s' % name)
+        else:
+            acc.outcome(('rejected', outcomes[0][1]))
+        del kept
+    return acc
+
+
 NSH = 16
 
 
 def plan(tier):
     seeds = range(6 if tier == 'quick' else 16)
     # the longest shards first
-    return [('sweep', tier, o) for o in SWEEPS] + [('hist', tier, k, NSH) for k in range(NSH)] + [('seed', tier, s) for s in seeds] + [('env', tier, e) for e in ENVIRONMENTS] + [('set', tier, k, NSH) for k in range(NSH)] + [('headroom', tier, k, NSH) for k in range(NSH)] + [('capacity', tier, k, 8) for k in range(8)]
+    return [('sweep', tier, o) for o in SWEEPS] + [('hist', tier, k, NSH) for k in range(NSH)] + [('seed', tier, s) for s in seeds] + [('env', tier, e) for e in ENVIRONMENTS] + [('set', tier, k, NSH) for k in range(NSH)] + [('headroom', tier, k, NSH) for k in range(NSH)] + [('capacity', tier, k, 8) for k in range(8)] + [('rejected', tier)]
 
 
 def run_shard(spec):
+    if spec[0] == 'rejected':
+        return run_rejected(spec)
     if spec[0] == 'capacity':
         return run_capacity(spec)
     if spec[0] == 'headroom':
@@ -719,6 +752,15 @@ def run_fresh(text, opts=None):
 
 def replay(case):
     acc = Acc()
+    if 'rejected' in case:
+        kept, outcomes = [], []
+        for attempt in range(3):
+            try:
+                outcomes.append(('compiled', digest(impl.compile_text(case['rejected'][1]))))
+            except Exception as e:  # noqa: BLE001
+                kept.append(e)
+                outcomes.append(('rejected', type(e).__name__))
+        return [] if outcomes[1] == outcomes[0] == outcomes[2] else [('rejected-program-accepted-on-a-later-attempt', str(outcomes))]
     if 'capacity' in case:
         nn, tn, kk = case['capacity']
         t = {x[0]: x for x in CAP_TARGETS}[tn]
